@@ -105,7 +105,7 @@ def g_append(r, name):
             pos = r.randrange(0, 50)
         pos = max(0, min(pos, IMAX))
         L.append("appendat 110 1 %d %d" % (pos, n_))
-        L.append(r.choice(["dds", "put 111 %d 4" % r.randrange(1, 9), "reserve 112 %d 1" % r.randrange(1, 9)]))
+        L.append("dds")     # (anything allocated here would end the file instead of the element)
     L += ["dds", "reopen", "dds", "put 113 1 6", "get 113 1"]
     return L
 
